@@ -1,8 +1,9 @@
 """C05 -- angle-set and axis-angle extraction is a right inverse of construction.
 
 Pipeline (docs/C05.md):
-  1. T-const : fail-closed AST pass over tr2rpy / tr2eul / tr2xyt -> coq/gen/Consts_C05.v (the `k` of every `k * _eps`
-               test, checked against the branch skeleton the hand model was written for)
+  1. T-const : fail-closed AST pass over tr2rpy / tr2eul / tr2xyt -> coq/gen/Consts_C05.v (the `k` of every `k * _eps`;
+               the ordering comparisons of each function, after inlining single-assignment locals, must be the ones the
+               hand model mirrors; a merely restructured function only escalates its float correspondence)
   2. T-sym   : the constructors rpy2r (3 orders + aliases, rad/deg, scalar/vector form), eul2r, rot2, xyt2tr, angvec2r and
                the class constructors executed on symbols -> coq/gen/Traces_C05.v; the file also instantiates the hand
                models of theories/Model/C05_Angles.v with the regenerated thresholds (m_* definitions)
@@ -43,64 +44,141 @@ class TConstError(Exception):
     pass
 
 
-# if-tests of the modelled functions in source order; names assigned inside the function -> `_`, the literal factor of
-# `_eps` -> K.  This is the skeleton theories/Model/C05_Angles.v mirrors.
-EXPECTED_SKELETON = {
-    'tr2rpy': [
-        'if base.ismatrix(T, (4, 4))', 'if not isrot(_, check=check)',
-        "if order == 'xyz' or order == 'arm'", 'if abs(abs(_[0, 2]) - 1) < K * _eps', 'if _[0, 2] > 0',
-        'if _ == 0', 'if _ == 1', 'if _ == 2', 'if _ == 3',
-        "if order == 'zyx' or order == 'vehicle'", 'if abs(abs(_[2, 0]) - 1) < K * _eps', 'if _[2, 0] < 0',
-        'if _ == 0', 'if _ == 1', 'if _ == 2', 'if _ == 3',
-        "if order == 'yxz' or order == 'camera'", 'if abs(abs(_[1, 2]) - 1) < K * _eps', 'if _[1, 2] < 0',
-        'if _ == 0', 'if _ == 1', 'if _ == 2', 'if _ == 3',
-        "if unit == 'deg'"],
-    'tr2eul': [
-        'if base.ismatrix(T, (4, 4))', 'if not isrot(_, check=check)',
-        'if abs(_[0, 2]) < K * _eps and abs(_[1, 2]) < K * _eps', 'if flip', "if unit == 'deg'"],
-    'tr2xyt': ["if unit == 'deg'"],
+# Normalised semantic summary of the modelled functions (what theories/Model/C05_Angles.v mirrors), robust to refactoring:
+# every ORDERING comparison (< > <= >=) of the function, taken as the whole boolean expression it is part of, in source
+# order, AFTER inlining locals that are assigned exactly once (so `singular = a < 10*_eps and b < 10*_eps; if singular:`
+# equals the inline form, and `tol = 10*_eps` hoisted into a local equals the literal form), locals that are assigned
+# several times alpha-renamed to `_`, the integer factor of `_eps` replaced by K (its value goes to Consts_C05.v).
+# Where statements sit, equality dispatch (`order == ..`, `k == n`, `unit == 'deg'`) and assignments are NOT part of the
+# hard summary: those are covered by the float correspondence, which is escalated to its thorough size for a function
+# whose normalised AST hash differs from the recorded one (noted in the evidence, not a violation).
+EXPECTED_SUMMARY = {
+    'tr2rpy': ['abs(abs(_[0, 2]) - 1) < K * _eps', '_[0, 2] > 0',
+               'abs(abs(_[2, 0]) - 1) < K * _eps', '_[2, 0] < 0',
+               'abs(abs(_[1, 2]) - 1) < K * _eps', '_[1, 2] < 0'],
+    'tr2eul': ['abs(_[0, 2]) < K * _eps and abs(_[1, 2]) < K * _eps'],
+    'tr2xyt': [],
 }
-# order in which the K's appear in the source -> name of the constant
+# order in which the K's appear in the summary -> name of the constant
 CONST_NAMES = {'tr2rpy': ['c_tr2rpy_xyz', 'c_tr2rpy_zyx', 'c_tr2rpy_yxz'], 'tr2eul': ['c_tr2eul_1', 'c_tr2eul_2'], 'tr2xyt': []}
 FILES = {'tr2rpy': 'spatialmath/base/transforms3d.py', 'tr2eul': 'spatialmath/base/transforms3d.py',
          'tr2xyt': 'spatialmath/base/transforms2d.py'}
+# normalised-AST hash of each modelled function on the tree the model was last aligned with (/repo 40af48b);
+# a different hash only escalates the correspondence of that function (see run())
+EXPECTED_HASH = {'tr2rpy': 'ce33480a8309', 'tr2eul': 'c50b8695f2d5', 'tr2xyt': 'b3104c0fe31e'}
+ORDERING = (ast.Lt, ast.LtE, ast.Gt, ast.GtE)
+MODEL_PREFIX = {'tr2rpy': ['m_tr2rpy_'], 'tr2eul': ['m_tr2eul_'], 'tr2xyt': ['m_tr2xyt_']}
 
 
-def _skeleton(fn):
-    local = {n.id for n in ast.walk(fn) if isinstance(n, ast.Name) and isinstance(n.ctx, ast.Store)}
-    consts = []
+def _strip_doc(fn):
+    body = fn.body
+    if body and isinstance(body[0], ast.Expr) and isinstance(getattr(body[0], 'value', None), ast.Constant) and isinstance(body[0].value.value, str):
+        body = body[1:]
+    return body
+
+
+def fn_hash(fn):
+    """hash of the function body with the docstring removed and local names numbered by first appearance"""
+    import copy
+    import hashlib
+    f = copy.deepcopy(fn)
+    f.body = _strip_doc(f)
+    local = {n.id for n in ast.walk(f) if isinstance(n, ast.Name) and isinstance(n.ctx, ast.Store)}
+    num = {}
 
     class Ren(ast.NodeTransformer):
         def visit_Name(self, n):
-            return ast.copy_location(ast.Name(id='_' if n.id in local else n.id, ctx=n.ctx), n)
-
-        def visit_BinOp(self, n):
-            self.generic_visit(n)
-            if isinstance(n.op, ast.Mult) and isinstance(n.right, ast.Name) and n.right.id == '_eps':
-                if not (isinstance(n.left, ast.Constant) and isinstance(n.left.value, int) and not isinstance(n.left.value, bool)):
-                    raise TConstError(f"{fn.name}: threshold factor `{ast.unparse(n.left)}` is not an integer literal")
-                consts.append(n.left.value)
-                n.left = ast.Name(id='K', ctx=ast.Load())
+            if n.id in local:
+                num.setdefault(n.id, f"v{len(num)}")
+                return ast.copy_location(ast.Name(id=num[n.id], ctx=n.ctx), n)
             return n
-    out = []
-    for s in ast.walk(fn):
-        pass
-    # source order: walk statements recursively
-    def walk(body):
-        for s in body:
+    return hashlib.md5(ast.dump(ast.Module(body=Ren().visit(f).body, type_ignores=[])).encode()).hexdigest()[:12]
+
+
+def _summary(fn):
+    """(list of normalised ordering-comparison expressions, list of the integer factors of _eps in them)"""
+    import copy
+    body = _strip_doc(fn)
+    stores = {}
+    simple = {}
+    for n in ast.walk(ast.Module(body=body, type_ignores=[])):
+        if isinstance(n, ast.Name) and isinstance(n.ctx, ast.Store):
+            stores[n.id] = stores.get(n.id, 0) + 1
+        if isinstance(n, ast.Assign) and len(n.targets) == 1 and isinstance(n.targets[0], ast.Name):
+            simple.setdefault(n.targets[0].id, []).append(n)
+        if isinstance(n, (ast.For, ast.While, ast.With, ast.Try)):
+            raise TConstError(f"{fn.name}: unexpected compound statement {type(n).__name__}")
+    params = {a.arg for a in fn.args.args + fn.args.kwonlyargs}
+    single = {k: v[0].value for k, v in simple.items() if stores.get(k) == 1 and len(v) == 1 and k not in params}
+    multi = {k for k in stores if k not in single}
+
+    def inline(e, depth=0):
+        if depth > 8:
+            raise TConstError(f"{fn.name}: local definitions too deep to inline")
+
+        class In(ast.NodeTransformer):
+            def visit_Name(self, n):
+                if isinstance(n.ctx, ast.Load) and n.id in single:
+                    return inline(copy.deepcopy(single[n.id]), depth + 1)
+                if n.id in multi:
+                    return ast.copy_location(ast.Name(id='_', ctx=n.ctx), n)
+                return n
+        return In().visit(e)
+
+    out, consts = [], []
+
+    def has_ordering(e):
+        return any(isinstance(c, ast.Compare) and any(isinstance(o, ORDERING) for o in c.ops) for c in ast.walk(e))
+
+    def record(e):
+        class K(ast.NodeTransformer):
+            def visit_BinOp(self, n):
+                self.generic_visit(n)
+                if isinstance(n.op, ast.Mult) and isinstance(n.right, ast.Name) and n.right.id == '_eps':
+                    if not (isinstance(n.left, ast.Constant) and isinstance(n.left.value, int) and not isinstance(n.left.value, bool)):
+                        raise TConstError(f"{fn.name}: threshold factor `{ast.unparse(n.left)}` of _eps is not an integer literal")
+                    consts.append(n.left.value)
+                    n.left = ast.Name(id='K', ctx=ast.Load())
+                return n
+        out.append(ast.unparse(K().visit(e)))
+
+    def scan(e, in_bool=False):
+        """record every maximal boolean expression (BoolOp / Compare / not) that contains an ordering comparison"""
+        is_bool = isinstance(e, (ast.BoolOp, ast.Compare)) or (isinstance(e, ast.UnaryOp) and isinstance(e.op, ast.Not))
+        if is_bool and not in_bool and has_ordering(e):
+            record(e)
+            return
+        for c in ast.iter_child_nodes(e):
+            if isinstance(c, ast.expr):
+                scan(c, in_bool or is_bool)
+
+    neps = [0]
+
+    def walk(stmts):
+        for s in stmts:
+            if isinstance(s, ast.Assign) and len(s.targets) == 1 and isinstance(s.targets[0], ast.Name) and s.targets[0].id in single:
+                continue                      # inlined at its uses
             if isinstance(s, ast.If):
-                out.append('if ' + ast.unparse(Ren().visit(ast.parse(ast.unparse(s.test), mode='eval').body)))
+                t = inline(copy.deepcopy(s.test))
+                neps[0] += sum(1 for n in ast.walk(t) if isinstance(n, ast.Name) and n.id == '_eps')
+                scan(t)
                 walk(s.body)
                 walk(s.orelse)
-            elif isinstance(s, (ast.For, ast.While, ast.With, ast.Try)):
-                raise TConstError(f"{fn.name}: unexpected compound statement {type(s).__name__}")
-    walk(fn.body)
-    # a threshold written without _eps inside a test (e.g. `< 1e-3`) shows up as a skeleton difference
+            else:
+                for c in ast.iter_child_nodes(s):
+                    if isinstance(c, ast.expr):
+                        t = inline(copy.deepcopy(c))
+                        neps[0] += sum(1 for n in ast.walk(t) if isinstance(n, ast.Name) and n.id == '_eps')
+                        scan(t)
+    walk(body)
+    if neps[0] != len(consts):
+        raise TConstError(f"{fn.name}: _eps is used {neps[0]} times but only {len(consts)} times as `k * _eps` inside an ordering comparison")
     return out, consts
 
 
 def tconst(ctx):
-    vals = {}
+    """returns ({constant name: k}, {function: True if its normalised AST differs from the recorded one})"""
+    vals, changed = {}, {}
     for fname, rel in FILES.items():
         src = open(os.path.join(REPO, rel)).read()
         tree = ast.parse(src)
@@ -110,15 +188,17 @@ def tconst(ctx):
         if rel.endswith('transforms3d.py'):
             if not any(isinstance(n, ast.Assign) and ast.unparse(n) == '_eps = np.finfo(np.float64).eps' for n in tree.body):
                 raise TConstError("transforms3d._eps is no longer np.finfo(np.float64).eps")
-        sk, consts = _skeleton(fns[0])
-        if sk != EXPECTED_SKELETON[fname]:
-            diff = [(i, a, b) for i, (a, b) in enumerate(zip(sk + ['<end>'] * 40, EXPECTED_SKELETON[fname] + ['<end>'] * 40)) if a != b][:3]
-            raise TConstError(f"{fname}: branch skeleton differs from the one the model mirrors (index, source, model): {diff}")
+        sm, consts = _summary(fns[0])
+        if sm != EXPECTED_SUMMARY[fname]:
+            diff = [(i, a, b) for i, (a, b) in enumerate(zip(sm + ['<end>'] * 40, EXPECTED_SUMMARY[fname] + ['<end>'] * 40)) if a != b][:3]
+            raise TConstError(f"{fname}: the ordering comparisons differ from the ones the model mirrors (index, source, model): {diff}")
         if len(consts) != len(CONST_NAMES[fname]):
             raise TConstError(f"{fname}: expected {len(CONST_NAMES[fname])} thresholds k*_eps, found {len(consts)}")
         for nm, k in zip(CONST_NAMES[fname], consts):
             vals[nm] = k
-    return vals
+        changed[fname] = fn_hash(fns[0]) != EXPECTED_HASH[fname]
+        ctx.stats[f'ast_hash:{fname}'] = fn_hash(fns[0])
+    return vals, changed
 
 
 # ------------------------------------------------------------------------------------------------------------
@@ -551,6 +631,96 @@ def oracle_planar(ctx):
                 ctx.fail('oracle:planar:tr2xyt:deg', f"tr2xyt(T, unit='deg') theta {ad[2]} != {a[2] * 180 / PI}", rep)
 
 
+def oracle_multi(ctx):
+    """class accessors on MULTI-valued receivers (2..4 elements): element by element against the base function on that
+    element, and every element rebuilt.  Layout as the code has it: SO3/SE3 return one COLUMN per element, UnitQuaternion
+    one ROW per element."""
+    rng = ctx.rng
+    n_obj = ctx.n(60, 1500)
+    for it in range(n_obj):
+        n = int(rng.integers(2, 5))
+        Rs = []
+        for _ in range(n):
+            u = rng.random()
+            if u < 0.3:
+                od0 = str(rng.choice(list(ORDERS)))
+                Rs.append(np.array(base.rpy2r(rng.uniform(-PI, PI), float(rng.choice([PI / 2, -PI / 2])) + float(rng.choice(OFFSETS)),
+                                              rng.uniform(-PI, PI), order=od0), float))
+            elif u < 0.5:
+                Rs.append(np.array(base.eul2r(rng.uniform(-PI, PI), float(rng.choice([0, PI])) + float(rng.choice(OFFSETS)), rng.uniform(-PI, PI)), float))
+            else:
+                Rs.append(np.array(base.rpy2r(*rng.uniform(-PI, PI, 3)), float))
+        objs = {'SO3': SO3(Rs, check=False), 'SE3': SE3([r2t(R, rng.normal(size=3)) for R in Rs], check=False),
+                'UQ': UnitQuaternion([base.r2q(R) for R in Rs])}
+        for site, X in objs.items():
+            elem = (lambda a, i: np.asarray(a, float)[i]) if site == 'UQ' else (lambda a, i: np.asarray(a, float)[:, i])
+            Rel = [np.array(x.R, float) for x in X] if site == 'UQ' else Rs
+            rep0 = {'site': site + '[multi]', 'n': n, 'R_hex': [hexl(R) for R in Rs]}
+            for order, alias in ORDERS.items():
+                for od in (order, alias):
+                    for u in ('rad', 'deg'):
+                        ctx.case(('multi-rpy', site, od, u, it))
+                        ctx.count(f'oracle:multi:rpy:{site}')
+                        rep = dict(rep0, order=od, unit=u)
+                        try:
+                            A = X.rpy(order=od, unit=u)
+                            if np.asarray(A).shape != ((n, 3) if site == 'UQ' else (3, n)):
+                                ctx.fail(f'oracle:multi:rpy:{site}:shape', f"{site}.rpy on {n} elements returns shape {np.asarray(A).shape}", rep)
+                                continue
+                            for i in range(n):
+                                a = elem(A, i)
+                                ref = np.asarray(base.tr2rpy(Rel[i], order=od, unit=u), float)
+                                err = float(np.max(np.abs(np.array(base.rpy2r(a, order=order, unit=u), float) - Rel[i])))
+                                if not np.allclose(a, ref, rtol=0, atol=1e-12 * (180 if u == 'deg' else 1)) or not err <= 1e-6:
+                                    ctx.fail(f'oracle:multi:rpy:{site}:element', f"{site}.rpy(order={od!r}, unit={u!r}) on a {n}-element object: element {i} "
+                                             f"is {a}, base.tr2rpy on that element gives {ref}; rebuild error {err:g}", dict(rep, element=i, got=a.tolist(), base=ref.tolist()))
+                        except Exception as ex:
+                            ctx.fail(f'oracle:multi:rpy:{site}:raises:{type(ex).__name__}', f"{site}.rpy on a {n}-element object raises {type(ex).__name__}: {ex}", rep)
+            for fl in ((False,) if site == 'UQ' else (False, True)):
+                for u in ('rad', 'deg'):
+                    ctx.case(('multi-eul', site, fl, u, it))
+                    ctx.count(f'oracle:multi:eul:{site}')
+                    rep = dict(rep0, flip=fl, unit=u)
+                    try:
+                        A = X.eul(unit=u) if site == 'UQ' else X.eul(unit=u, flip=fl)
+                        if np.asarray(A).shape != ((n, 3) if site == 'UQ' else (3, n)):
+                            ctx.fail(f'oracle:multi:eul:{site}:shape', f"{site}.eul on {n} elements returns shape {np.asarray(A).shape}", rep)
+                            continue
+                        for i in range(n):
+                            a = elem(A, i)
+                            err = float(np.max(np.abs(np.array(base.eul2r(a, unit=u), float) - Rel[i])))
+                            lim = 180.0 if u == 'deg' else PI
+                            if not err <= 1e-6 or not np.all(np.abs(a) <= lim * (1 + 1e-12)):
+                                ctx.fail(f'oracle:multi:eul:{site}:element', f"{site}.eul(unit={u!r}, flip={fl}) on a {n}-element object: element {i} = {a}, "
+                                         f"rebuild error {err:g}", dict(rep, element=i, got=a.tolist()))
+                    except Exception as ex:
+                        ctx.fail(f'oracle:multi:eul:{site}:raises:{type(ex).__name__}', f"{site}.eul on a {n}-element object raises {type(ex).__name__}: {ex}", rep)
+            for u in ('rad', 'deg'):
+                ctx.case(('multi-angvec', site, u, it))
+                ctx.count(f'oracle:multi:angvec:{site}')
+                rep = dict(rep0, unit=u)
+                try:
+                    with np.errstate(all='ignore'):
+                        res = X.angvec(unit=u)
+                    ths, axs = res
+                    for i in range(n):
+                        t, ax = float(np.asarray(ths, float)[i]), np.asarray(axs, float)[i]
+                        tb, axb = base.tr2angvec(Rel[i], unit=u)
+                        err = float(np.max(np.abs(np.array(base.angvec2r(t, ax, unit=u), float) - Rel[i])))
+                        if not (abs(t - tb) <= 1e-9 * 180 and np.allclose(ax, axb, atol=1e-9)) or not err <= 1e-6:
+                            ctx.fail(f'oracle:multi:angvec:{site}:element', f"{site}.angvec on a {n}-element object: element {i} = ({t}, {ax}), base gives "
+                                     f"({tb}, {axb}); rebuild error {err:g}", dict(rep, element=i))
+                except ValueError as ex:
+                    if 'not SO(3)' in str(ex):
+                        ctx.fail('oracle:multi:angvec:sequence-raises:ValueError',
+                                 f"{site}.angvec() on a {n}-element object raises ValueError({ex}): the accessor hands the N x 3 x 3 stack self.R to the "
+                                 f"single-value kernel base.tr2angvec", rep)
+                    else:
+                        ctx.fail(f'oracle:multi:angvec:{site}:raises:ValueError', f"{site}.angvec on a {n}-element object raises {ex}", rep)
+                except Exception as ex:
+                    ctx.fail(f'oracle:multi:angvec:{site}:raises:{type(ex).__name__}', f"{site}.angvec on a {n}-element object raises {type(ex).__name__}: {ex}", rep)
+
+
 def run(ctx):
     ctx.rule = ("obligations: theorems of theories/Props/C05_a.v, C05_b.v over the constructor traces and threshold constants regenerated from "
                 "/repo (+ the fixed lemma library Model/C05_Proofs.v they instantiate); evaluations: T-num cases (hand model vs "
@@ -559,8 +729,9 @@ def run(ctx):
     ctx.trusted_extra = ["AST pass props/C05.py:tconst (thresholds k*_eps and if-skeleton of tr2rpy/tr2eul/tr2xyt)",
                          "hand models theories/Model/C05_Angles.v, tied by the float correspondence T-num on every run"]
     with ctx.timed('regenerate'):
+        changed = {}
         try:
-            consts = tconst(ctx)
+            consts, changed = tconst(ctx)
         except TConstError as ex:
             ctx.fail('tconst:model-no-longer-corresponds', f"the hand model of the extraction kernels no longer mirrors the source: {ex}",
                      {'detail': str(ex)}, no_input=True)
@@ -579,8 +750,21 @@ def run(ctx):
         ctx.prove('theories/Props/C05_b.v')       # extraction: right inverse, singular case, ranges, degrees (needs the thresholds)
         with ctx.timed('correspond'):
             sym_num(ctx, g, MOD, ctx.n(260, 1500))
+            # a modelled function whose statements were restructured (same comparisons, different normalised AST):
+            # not a violation; its model instances get the thorough number of correspondence cases
+            esc = [f for f, c in changed.items() if c]
+            if esc and not ctx.thorough:
+                import copy
+                sub = copy.copy(g)
+                sub.traces = [t for t in g.traces if any(t.name.startswith(pref) for f in esc for pref in MODEL_PREFIX[f])]
+                ctx.notes.append(f"normalised AST of {esc} differs from the recorded one (comparisons and thresholds unchanged): "
+                                 f"correspondence of {len(sub.traces)} model instances escalated to 1500 cases each")
+                ctx.stats['escalated'] = esc
+                if sub.traces:
+                    sym_num(ctx, sub, MOD, 1500)
     with ctx.timed('oracle'):
         oracle_rpy(ctx)
         oracle_eul(ctx)
         oracle_angvec(ctx)
         oracle_planar(ctx)
+        oracle_multi(ctx)
